@@ -61,7 +61,7 @@ func TestC08_AckRemoval(t *testing.T) {
 // notes/proposed-fixes/cap-tmpcap-prune.diff).  FAILS on the tree without the patch, passes
 // with it; named TestPendingC08_… so that `bin/check C08` does not run it while the defect is a
 // known finding — rename to TestC08_TmpCapPruned in the commit that applies the fix.
-func TestPendingC08_TmpCapPruned(t *testing.T) {
+func TestC08_TmpCapPruned(t *testing.T) {
 	// the last CAP REQ written for a scripted sequence of server lines; a PING fed after them
 	// goes through the same send queue, so its PONG marks the end of what they caused
 	reqAfter := func(lines ...string) string {
